@@ -223,6 +223,27 @@ func genBuild(t *Tracer, m *Meta, tier string, seed int64) {
 			runBuildCase(t, m, r, c, "run:"+runClass(L))
 		}
 	}
+	// (d) the same runs followed by a fan-out of 12 bytes: the node below the run is a
+	// 257-bit node (byte-wide label), whose step is counted in the same 4-bit units
+	fanRuns := []int{65534, 65536, 70002, 131070, 131072}
+	if quick {
+		fanRuns = []int{65534, 65536, 98304}
+	}
+	for _, L := range fanRuns {
+		for _, o4 := range [][4]int{{1, 0, 0, 0}, {0, 0, 1, 0}, all16[r.Intn(16)]} {
+			common := strings.Repeat(string([]byte{byte(0x40 + r.Intn(64))}), L/2)
+			keys := []string{}
+			for i := 0; i < 12; i++ {
+				keys = append(keys, common+string([]byte{byte(10 + i*20)}))
+			}
+			enc := []string{"i32", "none"}[r.Intn(2)]
+			c := &TrieCase{Keys: keys, Enc: enc, Opt4: o4}
+			if enc != "none" {
+				c.Vals = valsFromPattern(enc, len(keys), 0, 3)
+			}
+			runBuildCase(t, m, r, c, "run+fanout12:"+runClass(L))
+		}
+	}
 }
 
 func runClass(L int) string {
